@@ -9,6 +9,12 @@
 //! spawned close finished, hence the lock released) before answering.  `lk holder` observes the
 //! lock itself with a read-only descriptor + `flock(LOCK_EX|LOCK_NB)` (no truncation, unlocked at
 //! once), which never changes a byte.
+//!
+//! `lk dropout` drops the Tree on the harness thread, which is NOT inside any runtime context.  With the
+//! repaired `Tree::drop` (F28) that drop runs `Core::close` to completion on a temporary current-thread
+//! runtime, so NO waiting is done here: the flock probe is taken the instant `drop` returns (kept for
+//! `lk dropprobe`) and must already say `free`.  The opener's own runtime is kept until `lk rtgone`; its
+//! shutdown must change nothing any more.
 use crate::util::*;
 use std::collections::BTreeMap;
 use std::io::{BufRead, BufReader, Read, Write};
@@ -33,6 +39,8 @@ pub struct Lk {
     openers: BTreeMap<u32, Opener>,
     /// runtimes of openers whose Tree was dropped outside the runtime
     zombies: BTreeMap<u32, tokio::runtime::Runtime>,
+    /// what the flock probe said the instant the last `dropout` returned from `drop(tree)` (no waiting)
+    drop_probe: String,
     kids: BTreeMap<u32, Kid>,
     /// pid -> process label, for every process that ever opened this directory
     pids: BTreeMap<u32, String>,
@@ -140,7 +148,7 @@ fn walk(root: &Path, rel: &str, out: &mut Vec<(String, String)>) {
 
 impl Lk {
     pub fn new() -> Self {
-        Lk { dir: tempfile::tempdir().unwrap(), openers: BTreeMap::new(), zombies: BTreeMap::new(), kids: BTreeMap::new(), pids: BTreeMap::new() }
+        Lk { dir: tempfile::tempdir().unwrap(), openers: BTreeMap::new(), zombies: BTreeMap::new(), drop_probe: "none".into(), kids: BTreeMap::new(), pids: BTreeMap::new() }
     }
     fn path(&self) -> PathBuf {
         self.dir.path().join("db")
@@ -279,16 +287,20 @@ impl Lk {
                     }
                 }
             },
-            // the Tree is dropped on a thread that is NOT inside a runtime context: Tree::drop spawns no
-            // close; the opener's runtime (with the store's background tasks) stays alive until `rtgone`
+            // the Tree is dropped on a thread that is NOT inside a runtime context: the repaired Tree::drop
+            // closes the store right there (temporary runtime + block_on), so the lock is free when drop()
+            // returns: probed at once, without waiting for anything.  The opener's runtime is kept until
+            // `rtgone` (before the repair the store's background tasks on it kept the lock: finding F28).
             ["dropout", i] => match self.openers.remove(&i.parse().unwrap()) {
                 None => "noop".into(),
                 Some(Opener { rt, tree }) => {
                     drop(tree);
+                    self.drop_probe = self.holder();
                     self.zombies.insert(i.parse().unwrap(), rt);
                     "ok".into()
                 }
             },
+            ["dropprobe"] => self.drop_probe.clone(),
             ["rtgone", i] => match self.zombies.remove(&i.parse().unwrap()) {
                 None => "noop".into(),
                 Some(rt) => {
